@@ -1,0 +1,7 @@
+//go:build !verif
+
+package mempool
+
+import "bytes"
+
+func verifAt(string, *bytes.Buffer) {}
